@@ -96,7 +96,9 @@ pub fn run(ctx: &Ctx) -> Result<(), String> {
     // a health-check connection that is opened and then left silent and open (a connect-only probe
     // of a load balancer) while the signal arrives: the worker must not wait for that peer
     {
-        let plans: Vec<(usize, usize, i32)> = ctx.tier.pick(vec![(1, 64, libc::SIGINT)], vec![(1, 64, libc::SIGINT), (1, 64, libc::SIGTERM), (2, 2, libc::SIGTERM)]);
+        // (one worker: with several, the kernel picks the listener that gets the connection by the
+        // client's ephemeral port, which the controller does not own)
+        let plans: Vec<(usize, usize, i32)> = ctx.tier.pick(vec![(1, 64, libc::SIGINT)], vec![(1, 64, libc::SIGINT), (1, 64, libc::SIGTERM)]);
         for (n, bound, sig) in plans {
             let scn = Scenario {
                 name: format!("shutdown-n{}-health-silent-connection-{}", n, if sig == libc::SIGINT { "INT" } else { "TERM" }),
@@ -343,6 +345,39 @@ pub fn run(ctx: &Ctx) -> Result<(), String> {
         }
         drop(conn);
         sp.kill();
+    }
+    // the server launched with SIGHUP or SIGINT inherited as ignored (under nohup; as a background
+    // job of a script): SIGINT / SIGTERM still stop it with status 0 (sampled)
+    for (ignored, name, sig) in [(libc::SIGHUP, "SIGHUP ignored at launch", libc::SIGTERM), (libc::SIGHUP, "SIGHUP ignored at launch", libc::SIGINT), (libc::SIGINT, "SIGINT ignored at launch", libc::SIGTERM), (libc::SIGINT, "SIGINT ignored at launch", libc::SIGINT)] {
+        let mut done = false;
+        for _attempt in 0..3 {
+            let port = free_port();
+            let mut w = Written::base(port);
+            w.set("num_workers", "2");
+            let mut sp = ServerProc::start_ignoring(&w, &[ignored])?;
+            sp.wait_started(2, Duration::from_secs(10));
+            if sp.try_status().is_some() {
+                sp.kill();
+                continue;
+            }
+            std::thread::sleep(Duration::from_millis(100));
+            let t0 = Instant::now();
+            sp.signal(sig);
+            let ex = sp.wait_exit(Duration::from_secs(10));
+            let secs = t0.elapsed().as_secs_f64();
+            let se = sp.stderr();
+            sampled.push(json!({"num_workers":2,"launch":name,"signal":if sig == libc::SIGINT {"INT"} else {"TERM"},"exit":format!("{:?}", ex.map(|e| (e.0, e.1))),"seconds":(secs * 1000.0).round() / 1000.0}));
+            if !(matches!(ex, Some((Some(0), _, _))) && secs <= 5.0 && !se.contains("panicked")) {
+                ctx.violation("wall-clock-shutdown", if ex.is_none() { "no-exit-10s" } else { "unclean" }, name,
+                    json!({"kind":"wallclock-launch-environment","launch":name,"signal":sig,"exit":format!("{:?}", ex),"seconds":secs}));
+            }
+            sp.kill();
+            done = true;
+            break;
+        }
+        if !done {
+            return Err("server did not start with an ignored signal inherited".into());
+        }
     }
     // two signals a short while apart (sampled)
     for (stats, gap_ms, s1, s2) in [(false, 15u64, libc::SIGINT, libc::SIGTERM), (true, 250, libc::SIGTERM, libc::SIGINT), (false, 40, libc::SIGTERM, libc::SIGTERM)] {
